@@ -30,7 +30,7 @@ ASSUMPTIONS = [
 ]
 NOT_REACHED = ["lists longer than 12", "diffuse_field / psd (one pooled curve; see C17)"]
 BUDGET = {"quick": dict(cases=500, seconds=70, shards=4),
-          "thorough": dict(cases=16000, seconds=600, shards=16)}
+          "thorough": dict(cases=40000, seconds=600, shards=16)}
 REQUIRED = ["mon:row-equals-single-run", "mon:row-count-and-order", "mon:frequency-equals-fcs",
             "mon:finite-nonnegative", "mon:nyquist-refusal", "mon:permutation-consistent"]
 
